@@ -253,23 +253,59 @@ theorem wf_step_setContentTypes_partial (ct : CT) (part ctype : Str) (hok : Spec
 
 /-! ## NewSheet -/
 
-/-- `wf_step_newSheet_partial`: for ANY workbook state (also one whose part numbers differ from
-the sheet ids) NewSheet keeps relationship ids unique, and keeps one Override per part name
-provided no Override is registered for the part it picks. NewSheet now skips the ids whose
-worksheet part exists (fix 4d3235d), so the hypothesis only asks that Overrides of absent parts
-do not linger; for natively numbered workbooks it is discharged by `wf_step_newSheet`. -/
-theorem wf_step_newSheet_partial (b : Book) (name : Str)
-    (hrel : Spec.relsOk b.wbRels) (hct : Spec.ctOk b.ct)
+/-- every Override under the worksheet part prefix belongs to a stored worksheet part -/
+def ovrBacked (b : Book) : Prop :=
+  ∀ o ∈ b.ct.overrides, wsPartPrefix.isPrefixOf o.1 = true → ∃ p ∈ b.wsParts, o.1 = '/' :: p
+
+/-- `wf_step_newSheet_general`: NewSheet on ANY numbering (sheet ids and part numbers may
+disagree, as in workbooks whose sheets were re-ordered by another producer). If relationship ids
+are unique, there is one Override per part and every worksheet Override has its part, then
+NewSheet picks a part that did not exist (no worksheet is overwritten), and all three
+properties still hold afterwards. Replaces the "no Override lingers for the picked part"
+hypothesis of `wf_step_newSheet_partial` by a state invariant that `WF` checks on packages. -/
+theorem wf_step_newSheet_general (b : Book) (name : Str)
+    (hrel : Spec.relsOk b.wbRels) (hct : Spec.ctOk b.ct) (hback : ovrBacked b)
     (hno : maxRelNum b.wbRels 0 + 1 < 9223372036854775808)
-    (hfresh : sheetPartAbs (freshSheetId b.wsParts (b.wsParts.length + 1) (wrap64 (maxSheetId b.sheets 0 + 1)))
-      ∉ b.ct.overrides.map (·.1)) :
-    Spec.relsOk (newSheet b name).wbRels ∧ Spec.ctOk (newSheet b name).ct := by
+    (hid : maxSheetId b.sheets 0 + 1 + (b.wsParts.length + 1) < 9223372036854775808)
+    (hnew : (b.sheets.any fun s => eqFold s.name name) = false) :
+    Spec.relsOk (newSheet b name).wbRels ∧ Spec.ctOk (newSheet b name).ct ∧ ovrBacked (newSheet b name) ∧
+    (∃ p, p ∉ b.wsParts ∧ (newSheet b name).wsParts = b.wsParts ++ [p]) := by
+  have hN0 := le_maxSheetId b.sheets 0
+  have hw : wrap64 (maxSheetId b.sheets 0 + 1) = maxSheetId b.sheets 0 + 1 := wrap64_small (by omega) (by omega)
+  have habs := freshSheetId_absent b.wsParts (b.wsParts.length + 1) (maxSheetId b.sheets 0 + 1) (by omega) (by omega) (by omega)
+  have hu : uniqPart relWorksheet = none := by decide +kernel
+  generalize hK : freshSheetId b.wsParts (b.wsParts.length + 1) (maxSheetId b.sheets 0 + 1) = K at habs
+  have hfreshO : sheetPartAbs K ∉ b.ct.overrides.map (·.1) := by
+    intro hm
+    obtain ⟨o, ho, hoe⟩ := List.mem_map.mp hm
+    obtain ⟨p, hp, hpe⟩ := hback o ho (by rw [hoe]; exact sheetPartAbs_prefix K)
+    rw [hoe, sheetPartAbs_slash] at hpe
+    exact habs (by rw [List.cons.inj hpe |>.2]; exact hp)
+  have heq := addRels_eq b.wbRels relWorksheet (sheetPartAbs K) [] hu hno
   unfold newSheet
-  split
-  · exact ⟨hrel, hct⟩
-  · dsimp only
-    exact ⟨(wf_step_addRel b.wbRels relWorksheet _ [] facts_ok.2.2.2.2.2.2.2.1 hno hrel).1,
-           wf_step_setContentTypes_partial b.ct _ _ hct hfresh⟩
+  simp only [hnew, Bool.false_eq_true, if_false, hw, hK, heq]
+  refine ⟨?_, ?_, ?_, ?_⟩
+  · have := (wf_step_addRel b.wbRels relWorksheet (sheetPartAbs K) [] hu hno hrel).1
+    rw [heq] at this; exact this
+  · exact wf_step_setContentTypes_partial b.ct _ _ hct hfreshO
+  · intro o ho hpre
+    show ∃ p ∈ insertSet b.wsParts (worksheetPath (sheetPartAbs K)), _
+    have ho' : o ∈ b.ct.overrides ++ [(sheetPartAbs K, ctWorksheet)] := ho
+    rcases List.mem_append.mp ho' with h1 | h1
+    · obtain ⟨p, hp, hpe⟩ := hback o h1 hpre
+      exact ⟨p, (mem_insertSet _ _ _).mpr (Or.inl hp), hpe⟩
+    · simp only [List.mem_singleton] at h1
+      refine ⟨sheetPath K, (mem_insertSet _ _ _).mpr (Or.inr rfl), ?_⟩
+      rw [h1]; exact sheetPartAbs_slash K
+  · refine ⟨sheetPath K, habs, ?_⟩
+    show insertSet b.wsParts (worksheetPath (sheetPartAbs K)) = _
+    unfold insertSet
+    have : b.wsParts.contains (worksheetPath (sheetPartAbs K)) = false := by
+      cases hc : b.wsParts.contains (worksheetPath (sheetPartAbs K)) with
+      | false => rfl
+      | true => exact absurd (List.contains_iff_mem.mp hc) habs
+    rw [if_neg (by rw [this]; simp)]
+    rfl
 
 /-- a workbook whose sheetIds and part numbers disagree (sheets re-ordered in Excel: sheetId 1
 is stored in sheet2.xml) -/
@@ -649,6 +685,61 @@ theorem calcchain_follows_adjust (dir : Dir) (num : Nat) (offset : Int) (sid : I
     simp only [hb, if_true] at hm
     cases hm
     exact ⟨fun h' => absurd h' hi, fun _ => he⟩
+
+/-- every chain entry carries an explicit sheet id and names a formula cell of that sheet -/
+def chainOkC (s : ChainState) : Prop := ∀ e ∈ s.chain, e.i ≠ 0 ∧ (e.i, e.col, e.row) ∈ s.formulas
+
+inductive CellOp where
+  | setValue (sid : Int) (c r : Nat)
+  | setFormula (sid : Int) (c r : Nat) (empty : Bool)
+
+def stepCell (s : ChainState) : CellOp → ChainState
+  | .setValue sid c r => setCellValueC s sid c r
+  | .setFormula sid c r e => setCellFormulaC s sid c r e
+
+theorem dropChainAt_spec (cc : List CalcPos) (sid : Int) (c r : Nat) :
+    ∀ e ∈ dropChainAt cc sid c r, e ∈ cc ∧ ¬ (e.i = sid ∧ e.col = c ∧ e.row = r) := by
+  intro e he
+  unfold dropChainAt at he
+  obtain ⟨h1, h2⟩ := List.mem_filter.mp he
+  refine ⟨h1, ?_⟩
+  intro ⟨a, b, d⟩
+  simp [a, b, d] at h2
+
+/-- `calcchain_across_setters`: on a workbook whose calcChain names only formula cells, every
+history of SetCellValue-like setters and SetCellFormula (empty or not, on chained cells or
+elsewhere, on any sheet) keeps it so: overwriting a chained formula removes its entry together
+with the formula, nothing else touches the chain. -/
+theorem calcchain_across_setters (ops : List CellOp) (s : ChainState) (h : chainOkC s) :
+    chainOkC (ops.foldl stepCell s) := by
+  induction ops generalizing s with
+  | nil => exact h
+  | cons o os ih =>
+    apply ih
+    have drop : ∀ sid c r, chainOkC { formulas := s.formulas.filter (· != (sid, c, r)), chain := dropChainAt s.chain sid c r } := by
+      intro sid c r e he
+      obtain ⟨hm, hne⟩ := dropChainAt_spec s.chain sid c r e he
+      obtain ⟨h0, hf⟩ := h e hm
+      refine ⟨h0, List.mem_filter.mpr ⟨hf, ?_⟩⟩
+      simp only [bne_iff_ne, ne_eq, Prod.mk.injEq, not_and]
+      intro a b d; exact hne ⟨a, b, d⟩
+    cases o with
+    | setValue sid c r =>
+      simp only [stepCell, setCellValueC]
+      split
+      · exact drop sid c r
+      · exact h
+    | setFormula sid c r e =>
+      simp only [stepCell, setCellFormulaC]
+      split
+      · exact drop sid c r
+      · intro x hx
+        obtain ⟨h0, hf⟩ := h x hx
+        refine ⟨h0, ?_⟩
+        show _ ∈ (if s.formulas.contains (sid, c, r) then s.formulas else s.formulas ++ [(sid, c, r)])
+        split
+        · exact hf
+        · exact List.mem_append_left _ hf
 
 /-! ## pictures sharing a media part -/
 
